@@ -45,6 +45,8 @@ func init() {
 }
 
 func runC06(c *Ctx, r *Report) {
+	r.Rule("C06/error-classes", "each failure site named by the property wraps the sentinel the property names (timeout / auth / connection / privilege / NETCONF / operation / platform error)", 2)
+	checkErrorClasses(c, r, "C06")
 	r.Rule("C06/propagate", "at every call site of an I/O-capable function the error surfaces (returned, sent, or stored in a returned/sent result) and the failing edge neither retries, nor continues with I/O, nor returns success", 90)
 	r.Rule("C06/reader", "the channel read loop exits on end-of-stream, sets the exited flag on every exit, and Channel.Read tests error channel and exited flag before dequeuing", 4)
 	r.Rule("C06/netconf-forward", "sendRPC waits on the NETCONF error channel and returns the error it receives", 1)
